@@ -153,7 +153,7 @@ def kriging_scenarios(rng, quick):
         else: nc_model = nc
         mnvar = MODEL_NV[model]
         nv = matlc if matlc > 0 else mnvar
-        if sub == 0: nout = (0, nv * (est + std + varz))
+        if sub in (0, 4, 5): nout = (0, nv * (est + std + (varz if sub == 0 else 0)))
         elif sub == 1: nout = (0, 0)
         elif sub == 2: nout = (nv * ((xv[0] != 0) + (xv[1] != 0) + (xv[2] != 0)), 0)
         else: nout = (0, 5)
@@ -161,7 +161,7 @@ def kriging_scenarios(rng, quick):
                 alias=1 if sub == 2 else 0, variant=variant, natural=natural, nout=nout,
                 est=(1 if sub == 1 else (xv[0] != 0) if sub == 2 else 0 if sub == 3 else est),
                 std=(1 if sub == 1 else (xv[1] != 0) if sub == 2 else 0 if sub == 3 else std),
-                varz=(0 if sub == 1 else (xv[2] != 0) if sub == 2 else 0 if sub == 3 else varz),
+                varz=(0 if sub in (1, 4, 5) else (xv[2] != 0) if sub == 2 else 0 if sub == 3 else varz),
                 single=(iech0 if sub == 1 else -1), dgm=(calcul == 3 and sub in (0, 1)), xvalid=(sub == 2),
                 xv_est=xv[0], xv_std=xv[1], xv_varz=xv[2], neigh_only=(sub == 3), matlc=matlc, mnvar=mnvar, mndim=MODEL_ND[model],
                 nndim=NEIGH_ND[neigh], nfex=(1 if model == 4 else 0), extra_ok=extra_ok)
@@ -188,7 +188,22 @@ def kriging_scenarios(rng, quick):
     out.append(mk(0, nz=0, variant='no-z-variable', natural='check'))
     out.append(mk(3, nz=0, neigh=1, variant='test-neigh-no-z-variable', natural='any'))
     out.append(mk(0, neigh=4, variant='image-neigh', natural='any'))
-    # krigtest (single target: outputs registered as temporary)
+    # krigtest (single target: outputs registered as temporary; _postprocess returns early): every calculation option
+    out.append(mk(1, iech0=1, calcul=3, model=3, neigh=0, variant='single-target-dgm', zkind='pos'))
+    out.append(mk(1, iech0=0, calcul=3, model=3, neigh=1, variant='single-target-dgm', zkind='pos'))
+    out.append(mk(1, iech0=1, calcul=1, ndisc=2, variant='single-target-block'))
+    out.append(mk(1, iech0=1, calcul=2, neigh=1, variant='single-target-drift'))
+    out.append(mk(1, iech0=3, neigh=2, variant='single-target-unreachable-neigh'))
+    out.append(mk(1, iech0=1, model=2, nz=2, variant='single-target-multivar'))
+    out.append(mk(1, iech0=1, calcul=3, model=0, variant='single-target-dgm-no-anam', natural='check', extra_ok=0))
+    # other entry points of CalcKriging
+    out.append(mk(4, variant='kribayes', natural='any'))
+    out.append(mk(5, variant='krigprof', natural='any'))
+    out.append(mk(0, calcul=3, model=3, neigh=1, est=1, std=0, variant='dgm', zkind='pos'))
+    out.append(mk(0, calcul=3, model=3, neigh=0, est=0, std=1, varz=1, variant='dgm', zkind='pos'))
+    out.append(mk(0, calcul=2, variant='drift'))
+    out.append(mk(2, xv=(-1, 1, 1), neigh=1, variant='xvalid'))
+    out.append(mk(3, neigh=0, gout=False, nx=(1, 1), variant='test-neigh'))
     out.append(mk(1, iech0=0, variant='single-target'))
     out.append(mk(1, iech0=2, variant='single-target'))
     out.append(mk(1, iech0=1, calcul=1, ndisc=2, gout=False, nx=(1, 1), variant='single-target-block-on-points', natural='run'))
@@ -453,13 +468,13 @@ def expand(rng, base, quick):
     for sc in base:
         if quick:
             # the first regular scenario of every calculator always meets the most adversarial prior contents
-            if sc.natural is None and sc.id not in seen_ids:
-                seen_ids.add(sc.id); chosen = [priors[0], priors[-1]]
+            if sc.natural is None and sc.name() not in seen_ids:
+                seen_ids.add(sc.name()); chosen = [priors[0], priors[-1]]
             else:
                 chosen = [priors[0]] + rng.sample(priors[1:], 1)
         else:
             chosen = priors
-        for pr in chosen:
+        for ipr, pr in enumerate(chosen):
             s2 = copy.deepcopy(sc)
             roles = [L_Z] if s2.id not in (4, 5, 12) else [L_Z, L_SIMU]
             prx = []
@@ -470,6 +485,8 @@ def expand(rng, base, quick):
             tout = [] if s2.alias else add_prior(rng, s2.dbout, prx, s2.names)
             s2.tags = sorted(set(tin + tout))
             stages = [-1, 1, 2, 3, 4] if s2.natural is None else [-1]
+            # quick tier: the second prior contents of a scenario meets the failures that follow some work only
+            if quick and ipr > 0 and s2.natural is None and len(pr) < 4: stages = [-1, 2, 3]
             for fa in stages:
                 s3 = copy.copy(s2); s3.fail_after = fa; out.append(s3)
     return out
@@ -515,6 +532,7 @@ def diff_same(b, a):
         if bd[u][2] != ad[u][2]: out.append(('values-changed', (u, bd[u][1])))
     for t in range(NLOC):
         if b.locs[t] != a.locs[t]: out.append(('roles-changed', (t, b.locs[t], a.locs[t])))
+    if b.ndim != a.ndim: out.append(('ndim-changed', (b.ndim, a.ndim)))
     return out
 
 def diff_success(b, a, nnew, nc_t, is_target):
@@ -537,6 +555,7 @@ def diff_success(b, a, nnew, nc_t, is_target):
     if not is_target:      # "the whole input data base remains unchanged": roles included
         for t in range(NLOC):
             if a.locs[t] != b.locs[t]: out.append(('roles-changed', (t, b.locs[t], a.locs[t])))
+    if a.ndim != b.ndim: out.append(('ndim-changed', (b.ndim, a.ndim)))
     for t in range(NLOC):
         for u in a.locs[t]:
             if u not in ad and not (u in b.locs[t] and u not in bd): out.append(('stale-locator', (t, u)))
@@ -545,7 +564,7 @@ def diff_success(b, a, nnew, nc_t, is_target):
 SYMPTOM_KEY = {'columns-left': 'variables-left', 'columns-lost': 'columns-lost', 'order-changed': 'order-changed', 'name-changed': 'name-changed',
                'values-changed': 'values-changed', 'roles-changed': 'roles-changed', 'preexisting-columns-changed': 'columns-lost',
                'new-variable-count': 'new-variable-count', 'new-variable-reuses-uid': 'uid-reused', 'new-variable-unnamed': 'unnamed-output',
-               'stale-locator': 'stale-locator'}
+               'stale-locator': 'stale-locator', 'ndim-changed': 'space-dimension-changed'}
 
 def key_of(sc, which, diffs, success):
     """canonical key: calculator : option combination / mechanism - symptom (never the whole property)"""
@@ -580,6 +599,11 @@ def key_of(sc, which, diffs, success):
         return '%s:%s-failure-%s-in-db%s' % (calc, base, SYMPTOM_KEY[kinds[0]], which)
     if 'stale-locator' in kinds and base == 'single-target': return calc + ':single-target-stale-locator'
     if 'roles-changed' in kinds and L_SIMU in ts: return calc + ':existing-simu-locator-lost'
+    if 'roles-changed' in kinds or 'ndim-changed' in kinds:
+        # entry point (API function) whose success path changed the roles
+        entry = {0: 'kriging', 1: 'krigtest', 2: 'xvalid', 3: 'test_neigh', 4: 'kribayes', 5: 'krigprof'}.get(sc.sub, base) if sc.id == 0 else base
+        if sc.id == 0 and sc.cfg.get('dgm'): entry += '-dgm'
+        return '%s:%s:success-roles-changed' % (calc, entry)
     return '%s:%s-success-%s-in-db%s' % (calc, base, SYMPTOM_KEY[kinds[0]], which)
 
 # ----------------------------------------------------------------------------- model side
